@@ -141,6 +141,15 @@ def simplify_programs(thorough):
         P.append({'kind': 'simplify', 'family': fam, 'text': text, 'cmps': c, 'vars': list(names),
                   'variables': None, 'bound': None, 'rows': None, 'shape': 'single', 'param': d,
                   'class_by_outcome': True})
+    # the same relations written with blanks around the division sign (how the divisor is FOUND is text matching)
+    for fam, text, names, c, d in T:
+        if '/' not in text:
+            continue
+        for sp, when in ((' / ', thorough or d == DS[0]), ('/ ', thorough or d == DS[1]), (' /', thorough)):
+            if when:
+                P.append({'kind': 'simplify', 'family': fam, 'text': text.replace('/', sp), 'cmps': c, 'vars': list(names),
+                          'variables': None, 'bound': None, 'rows': None, 'shape': 'single', 'param': d,
+                          'class_by_outcome': True, 'spacing': repr(sp)})
     return P
 
 
